@@ -126,6 +126,7 @@ type Trial struct {
 	wg      sync.WaitGroup // executor tasks
 	tasks   atomic.Int64
 	hookHit [64]atomic.Int64
+	statusAtWrite [4]atomic.Int64 // drain status seen by writers between their load and their CAS
 	rngCtr  atomic.Uint64
 	stalled atomic.Bool
 	loaderV atomic.Int64
@@ -151,6 +152,8 @@ func WeightOf(v int, max uint64) uint32 {
 		return uint32(min(max+1, 1<<20))
 	}
 }
+
+var siteSchedAfterWriteLoaded = siteIndex("schedAfterWrite.loaded")
 
 var progress atomic.Int64 // operations completed in this process (watchdog)
 
@@ -185,6 +188,11 @@ func (t *Trial) rnd() uint64 { return core.Mix(t.Cfg.Seed ^ t.rngCtr.Add(1)) }
 func (t *Trial) hook(site int) {
 	if site < len(t.hookHit) {
 		t.hookHit[site].Add(1)
+	}
+	if site == siteSchedAfterWriteLoaded && t.Cache != nil {
+		if st := t.Cache.VerifDrainStatus(); st < 4 {
+			t.statusAtWrite[st].Add(1)
+		}
 	}
 	if t.Cfg.DelayPerM == 0 {
 		return
